@@ -79,7 +79,8 @@ struct dispatch_table
                  // try the first guard
                  typedef typename ::boost::mpl::front<Sequence>::type first_row;
                  boost::msm::back::HandledEnum res = first_row::execute(fsm,region_index,state,evt);
-                 if (::boost::msm::back::HANDLED_TRUE!=res && ::boost::msm::back::HANDLED_DEFERRED!=res)
+                 // res is a bit set: a submachine with several regions can return e.g. HANDLED_TRUE | HANDLED_GUARD_REJECT
+                 if (!(res & (::boost::msm::back::HANDLED_TRUE | ::boost::msm::back::HANDLED_DEFERRED)))
                  {
                     // if the first rejected, move on to the next one
                     boost::msm::back::HandledEnum sub_res =
